@@ -24,7 +24,7 @@ def livelocked(taps):
     """far more KEXINITs written than packets handed to send_packet: the endpoints do nothing but re-key"""
     for t in (taps or {}).values():
         k = sum(1 for e in t.events if e[0] == 'write' and e[1] == 20)
-        n = sum(1 for e in t.events if e[0] == 'send')
+        n = sum(1 for e in t.events if e[0] == 'send' and not 30 <= e[1] <= 49)      # kex-layer sends do not count
         if k > 3 * n + 40:
             return True
     return False
@@ -346,6 +346,9 @@ def gen_script(rng, thorough=False, race=False):
             steps += [['T', 150], ['W', 'c', 0, 20], ['W', 's', 0, 20]]
         if shape == 'one-sided' and rng.random() < 0.5:
             steps += [['W', who, 0, 200], ['D', 'c', 6], ['D', 's', 6], ['D', 'c', 6], ['D', 's', 6]]
+    while race and sum(1 for x in steps if x[0] == 'R') < 3:
+        k = rng.randint(0, len(steps))
+        steps[k:k] = [['T', rng.choice([1, 25])], ['R', rng.choice('cs'), rng.randint(0, 3), rng.choice([5, 30]), rng.choice([30, 150, 5000])]]
     sc['steps'] = steps
     sc['shape'] = 'race' if race else shape
     if race:
